@@ -8,6 +8,7 @@ import (
 	"errors"
 	"log/slog"
 	"net"
+	"slices"
 
 	"github.com/quic-go/quic-go"
 
@@ -94,6 +95,15 @@ func (f *Fetcher) exchangeKeys(ctx context.Context) error {
 	if len(f.data.Cookie) == 0 {
 		return errNoCookies
 	}
+	// A cookie is used for one request only: keep one copy of a cookie that the
+	// server sent more than once.
+	cookies := f.data.Cookie[:0]
+	for _, c := range f.data.Cookie {
+		if !slices.ContainsFunc(cookies, func(x []byte) bool { return bytes.Equal(x, c) }) {
+			cookies = append(cookies, c)
+		}
+	}
+	f.data.Cookie = cookies
 	if len(f.data.Cookie) > maxStoredCookies {
 		// A server should send eight cookies but may send more.
 		f.data.Cookie = f.data.Cookie[:maxStoredCookies]
